@@ -18,8 +18,10 @@ structure Ep where
   closed : Bool                  -- `close.is_some()`
   incoming : Nat                 -- queued `quinn_proto::Incoming`
   woken : List Nat               -- ghost log of `Waker::wake`
+  untold : Nat := 0              -- registered connections that were NOT sent `ConnectionEvent::Close`
+  told : Nat := 0                -- registered connections that were
 
-def Ep.init : Ep := ⟨fun _ => [], false, 0, []⟩
+def Ep.init : Ep := ⟨fun _ => [], false, 0, [], 0, 0⟩
 
 def Ep.setTab (e : Ep) (t : ETbl) (l : List Nat) : Ep :=
   { e with tabs := fun t' => if t' = t then l else e.tabs t' }
@@ -40,7 +42,7 @@ def Ep.pollIncoming (e : Ep) (r : EReg) (w : Nat) : Ep × ERes :=
 def Ep.applyClose (e : Ep) : CloseAct → Ep
   | .guardAlreadyClosed => e
   | .setClose => { e with closed := true }
-  | .notifyConnections => e
+  | .notifyConnections => { e with told := e.told + e.untold, untold := 0 }
   | .drain t => { e.setTab t [] with woken := e.woken ++ e.tabs t }
 
 /-- `Endpoint::close`: `if state.close.is_some() { return }` cuts the rest -/
@@ -70,6 +72,8 @@ inductive EOp where
   | poll (w : Nat)                -- a `wait_incoming()` future polled by task `w`
   | close                         -- `Endpoint::close`
   | datagram (newConn : Bool)     -- the worker handles a datagram (a new connection attempt or not), then the loop tail
+  | newConn                       -- `EndpointState::new_connection`: `Incoming::accept` (of an `Incoming` handed out
+                                  -- earlier, possibly before the close) or `Endpoint::connect`
   deriving DecidableEq, Repr
 
 def Ep.step (e : Ep) : EOp → Ep × Option ERes
@@ -78,6 +82,9 @@ def Ep.step (e : Ep) : EOp → Ep × Option ERes
   | .datagram nc =>
     let e1 := if nc && newConnectionQueuedOnlyWhenOpen && !e.closed then { e with incoming := e.incoming + 1 } else e
     (e1.loopTail, none)
+  | .newConn =>
+    if newConnectionBornClosedWhenClosed && e.closed then ({ e with told := e.told + 1 }, none)
+    else ({ e with untold := e.untold + 1 }, none)
 
 def Ep.run (e : Ep) : List EOp → Ep
   | [] => e
